@@ -22,15 +22,16 @@ Definition nav_ok (e : lox) : Prop := no_c 62 (lx_ref e) = true.
 Record Side (s : st) : Prop := {
   sd_mk : markup_ok (mtags s); sd_inl : inl s = false; sd_asis : asis s = false;
   sd_if : ifdepth s = 0%nat; sd_udef : udef s = None; sd_um : umacros s = []; sd_bf : bf s = None;
-  sd_dt : dtags s = []; sd_vs : verse s = false; sd_fmt : fmt s = FX; sd_mode : mode s = MD /\ ((MD = 0%nat /\ BASE = []) \/ ((MD = 1%nat \/ MD = 2%nat) /\ BASE = [R "body"; R "html"]));
+  sd_dt : dtags s = []; sd_vs : verse s = false; sd_fmt : fmt s = FX; sd_mode : mode s = MD /\ ((MD = 0%nat /\ BASE = []) \/ ((MD = 1%nat \/ MD = 2%nat \/ MD = 3%nat) /\ BASE = [R "body"; R "html"]));
   sd_np : panicked s = None; sd_iv : ivars s = []; sd_pa : params s = [(R "xhtml-index", R "full"); (R "lang", R "en")];
   sd_toc : toc s = fst K; sd_lox : lox_toc s = snd K;
   sd_lof : lox_lof s = []; sd_lot : lox_lot s = []; sd_lop : lox_lop s = [];
   (* multi-file mode: the files already written are balanced, and so is the navigation bar kept for the end of the current one *)
-  sd_files : Forall file_ok (files s); sd_nav : balanced_chunk (navtext s); sd_lnav : Forall nav_ok (lox_nav s)
+  sd_files : Forall file_ok (files s); sd_nav : balanced_chunk (navtext s); sd_lnav : Forall nav_ok (lox_nav s);
+  sd_img : images s = []
 }.
 Lemma Side_eqf a b : a ~= b -> Side b -> Side a.
-Proof. intros H [A1 A3 A4 A5 A6 A7 A8 A9 A10 A11 A12 A13 A14 A15 A16 A17 A18 A19 A20 A21 A22 A23].
+Proof. intros H [A1 A3 A4 A5 A6 A7 A8 A9 A10 A11 A12 A13 A14 A15 A16 A17 A18 A19 A20 A21 A22 A23 A24].
   split; [rewrite (eqf_get mtags _ _ (fun _ => eq_refl) H)|rewrite (eqf_get inl _ _ (fun _ => eq_refl) H)
          |rewrite (eqf_get asis _ _ (fun _ => eq_refl) H)|rewrite (eqf_get ifdepth _ _ (fun _ => eq_refl) H)
          |rewrite (eqf_get udef _ _ (fun _ => eq_refl) H)|rewrite (eqf_get umacros _ _ (fun _ => eq_refl) H)
@@ -38,9 +39,10 @@ Proof. intros H [A1 A3 A4 A5 A6 A7 A8 A9 A10 A11 A12 A13 A14 A15 A16 A17 A18 A19
          |rewrite (eqf_get verse _ _ (fun _ => eq_refl) H)|rewrite (fmt_eqf _ _ H)|rewrite (eqf_get mode _ _ (fun _ => eq_refl) H)|rewrite (eqf_get panicked _ _ (fun _ => eq_refl) H)|rewrite (eqf_get ivars _ _ (fun _ => eq_refl) H)|rewrite (eqf_get params _ _ (fun _ => eq_refl) H)
          |rewrite (eqf_get toc _ _ (fun _ => eq_refl) H)|rewrite (eqf_get lox_toc _ _ (fun _ => eq_refl) H)
          |rewrite (eqf_get lox_lof _ _ (fun _ => eq_refl) H)|rewrite (eqf_get lox_lot _ _ (fun _ => eq_refl) H)|rewrite (eqf_get lox_lop _ _ (fun _ => eq_refl) H)
-         |rewrite (eqf_get files _ _ (fun _ => eq_refl) H)|rewrite (eqf_get navtext _ _ (fun _ => eq_refl) H)|rewrite (eqf_get lox_nav _ _ (fun _ => eq_refl) H)]; assumption. Qed.
-Lemma Side_multi s : Side s -> X.multi s = Nat.eqb MD 2 /\ X.epub s = false.
-Proof. intro H. unfold X.multi, X.epub. destruct (sd_mode _ H) as [-> [[-> _]|[[-> | ->] _]]]; split; reflexivity. Qed.
+         |rewrite (eqf_get files _ _ (fun _ => eq_refl) H)|rewrite (eqf_get navtext _ _ (fun _ => eq_refl) H)|rewrite (eqf_get lox_nav _ _ (fun _ => eq_refl) H)
+         |rewrite (eqf_get images _ _ (fun _ => eq_refl) H)]; assumption. Qed.
+Lemma Side_multi s : Side s -> X.multi s = (Nat.eqb MD 2 || Nat.eqb MD 3) /\ X.epub s = Nat.eqb MD 3.
+Proof. intro H. unfold X.multi, X.epub. destruct (sd_mode _ H) as [-> _]. split; reflexivity. Qed.
 Definition is_bd (sc : scope) : Prop := sc_macro sc = R "Bd".
 Definition P (p : bool) (s : st) : Prop := Side s /\ Forall is_bd (sblock s) /\ process s = p /\ (p = true -> Inv s).
 Definition in_frag (b : block) : Prop :=
@@ -174,7 +176,7 @@ Proof. intro Hc. unfold push_block, mk_scope. destruct (cloc s) as [[[l n] f]|];
 Lemma Forall_pop {A} (Q : A -> Prop) l : Forall Q l -> Forall Q (pop l).
 Proof. unfold pop. induction 1 as [|x l Hx Hl IH]; [constructor|]. destruct l as [|y r]; [constructor|]. change (removelast (x :: y :: r)) with (x :: removelast (y :: r)). constructor; assumption. Qed.
 Lemma Side_set_sblock f s : Side s -> Side (s <| sblock ::= f |>).
-Proof. intros [A1 A3 A4 A5 A6 A7 A8 A9 A10 A11 A12 A13 A14 A15 A16 A17 A18 A19 A20 A21 A22 A23]. split; assumption. Qed.
+Proof. intros [A1 A3 A4 A5 A6 A7 A8 A9 A10 A11 A12 A13 A14 A15 A16 A17 A18 A19 A20 A21 A22 A23 A24]. split; assumption. Qed.
 
 Lemma macro_bd_P p s : P p s -> has_cur s = true -> P p (macro_bd s).
 Proof. intros HP Hc. pose proof HP as (HS & Hsb & Hpr & HI). unfold macro_bd. rewrite (scope_verse_bd _ Hsb).
@@ -541,7 +543,7 @@ Proof. intros HP Hc. pose proof HP as (HS & Hsb & Hpr & HI). unfold macro_lk. re
 Qed.
 
 Lemma Side_set_regs b s : Side s -> Side (set_regs b s).
-Proof. intros [A1 A3 A4 A5 A6 A7 A8 A9 A10 A11 A12 A13 A14 A15 A16 A17 A18 A19 A20 A21 A22 A23]. destruct b; split; assumption. Qed.
+Proof. intros [A1 A3 A4 A5 A6 A7 A8 A9 A10 A11 A12 A13 A14 A15 A16 A17 A18 A19 A20 A21 A22 A23 A24]. destruct b; split; assumption. Qed.
 Lemma P_set_regs p b s : P p s -> P p (set_regs b s) /\ has_cur (set_regs b s) = true.
 Proof. intros (HS & Hsb & Hpr & HI). split; [|destruct b; reflexivity].
   split; [apply Side_set_regs; exact HS|]. split; [destruct b; exact Hsb|]. split; [destruct b; exact Hpr|].
